@@ -85,6 +85,7 @@ func GenKey(kind string) (*Key, error) {
 // ServerSpec describes one dtail server child.
 type ServerSpec struct {
 	Name     string // host name reported by the server (DTAIL_HOSTNAME_OVERRIDE)
+	Hostname string // if set: the (fully qualified) name given to the server instead of Name
 	Dir      string // working directory (holds cache/, config, log)
 	Port     int
 	Server   map[string]interface{} // "Server" section of the config
@@ -165,7 +166,11 @@ func (r *Run) StartServer(spec *ServerSpec) (*Server, error) {
 	if lvl == "" {
 		lvl = "info"
 	}
-	env := append([]string{"DTAIL_HOSTNAME_OVERRIDE=" + spec.Name}, spec.Env...)
+	hostname := spec.Name
+	if spec.Hostname != "" {
+		hostname = spec.Hostname
+	}
+	env := append([]string{"DTAIL_HOSTNAME_OVERRIDE=" + hostname}, spec.Env...)
 	bin, ok := r.WorkerBin("server")
 	if !ok {
 		return nil, fmt.Errorf("server worker unavailable")
